@@ -236,7 +236,7 @@ func (c *FnCtx) deref(st *State, p *Val, t types.Type, at ast.Node) *Val {
 	if s == SNone {
 		return &Val{S: SNone, Typ: t, Box: p.T, T: typeShortName(t)}
 	}
-	key := "ptr." + sortName(s)
+	key := c.ptrKey(t)
 	h := c.heapGet(st, key, s)
 	return &Val{T: tApp("select", h, p.T), S: s, Typ: t}
 }
@@ -531,9 +531,23 @@ func (c *FnCtx) storeStruct(st *State, ref, owner, path string, t types.Type, v 
 	}
 }
 
+// bumpAlloc: somebody else (a callee, another iteration) may have allocated: the frontier only grows
+func (c *FnCtx) bumpAlloc(st *State) {
+	if st.alloc == "" {
+		return
+	}
+	a := c.fresh("alloc", SInt)
+	st.assume(tApp(">=", a, st.alloc))
+	st.alloc = a
+}
+
 func (c *FnCtx) newRef(st *State, hint string) string {
 	r := c.fresh(sanitizeSym(hint), SInt)
 	st.assume(tApp(">", r, "0"))
+	if st.alloc != "" {
+		st.assume(tApp(">", r, st.alloc))
+		st.alloc = r
+	}
 	st.assume(tNot(tApp("allocated0", r)))
 	c.decls.declFun("allocated0", []Sort{SInt}, SBool)
 	for _, o := range c.refs {
